@@ -186,6 +186,9 @@ def write_evidence(prop, pinfo, results, tier, seed, wall, failures, new_fail, l
             'attributes_dropped': len(r.log.get('dropped_attributes', [])),
             'derive_replacements': r.log.get('derive_replacements', []),
             'rewrites': r.log.get('rewrites', []),
+            'rewrites_not_applicable': r.log.get('rewrites_not_applicable', []),
+            'loops_not_present': r.log.get('loops_not_present', []),
+            'solver_budget_retries': r.log.get('solver_budget_retries', []),
             'doc_comments_flattened': r.log.get('doc_comments_flattened', 0),
             'hand_written_template_lines': r.template_lines,
         }
